@@ -285,6 +285,43 @@ impl Ctx {
     /// Write evidence, print verdict lines, return the process exit code.
     pub fn finish(mut self) -> i32 {
         let root = verif_root();
+        // Calls given up and calls in flight beside the cases' own (s3sim::block_on).
+        #[cfg(feature = "data")]
+        {
+            use std::sync::atomic::Ordering::SeqCst;
+            let n = crate::s3sim::PRELUDES.load(SeqCst);
+            if n > 0 {
+                self.obs.count("calls_preceded_on_their_runtime_by_a_call_that_was_given_up", n);
+                self.obs.count("given_up_calls_dropped_before_they_completed", crate::s3sim::PRELUDES_CANCELLED.load(SeqCst));
+            }
+            let c = crate::s3sim::COMPANIONS.load(SeqCst);
+            if c > 0 {
+                self.obs.count("calls_with_a_companion_call_in_flight_on_the_same_runtime", c);
+                self.obs.count("companion_calls_answered_exactly", crate::s3sim::COMPANIONS_EXACT.load(SeqCst));
+            }
+            let side: Vec<(String, String)> = crate::s3sim::SIDE_VIOLATIONS.lock().map(|mut v| std::mem::take(&mut *v)).unwrap_or_default();
+            for (sig, detail) in side {
+                self.obs.violation(sig, detail, serde_json::json!({"companion": true}));
+            }
+        }
+        // Guard allocator (mon.rs): blocks whose red zones were overwritten, wherever they were released.
+        {
+            use std::sync::atomic::Ordering::SeqCst;
+            let n = crate::mon::GUARD_OVERRUNS.load(SeqCst);
+            if crate::mon::guard_on() {
+                self.obs.count("heap_blocks_between_red_zones_with_junk_filled_fresh_and_freed_memory", crate::mon::GUARD_BLOCKS.load(SeqCst));
+            } else {
+                self.obs.count("run_without_the_guard_allocator", 1);
+            }
+            if n > 0 && !self.obs.violation_sigs.keys().any(|k| k.starts_with("memory safety:")) {
+                let first = crate::mon::GUARD_FIRST.load(SeqCst);
+                self.obs.violation(
+                    "memory safety: bytes outside a heap block were overwritten during the run (guard allocator red zone)",
+                    format!("{} block(s); first: a {}-byte block overwritten {}", n, first >> 8, match first & 3 { 1 => "in front", 2 => "behind", _ => "on both sides" }),
+                    serde_json::json!({"blocks": n, "first_block_size": first >> 8}),
+                );
+            }
+        }
         let known = load_known(&self.prop);
         let wall = self.elapsed();
 
@@ -548,7 +585,16 @@ where
                             crate::props::poison::run(i);
                             obs.count("cases_preceded_by_failing_calls_on_the_same_thread", 1);
                         }
+                        let overruns_before = crate::mon::guard_overruns_on_this_thread();
                         f(i, &mut obs);
+                        let overruns = crate::mon::guard_overruns_on_this_thread() - overruns_before;
+                        if overruns > 0 {
+                            obs.violation(
+                                "memory safety: bytes outside a heap block were overwritten while the case ran (guard allocator red zone)",
+                                format!("{} block(s) released during case {} had their red zones overwritten", overruns, i),
+                                serde_json::json!({"case_index": i, "blocks": overruns}),
+                            );
+                        }
                         // History: one case in eight is followed, on the same thread, by a second
                         // run of the case this thread ran before it (A, B, A).  Every case is judged
                         // against its own reference model, so the second run of A must pass exactly
